@@ -68,6 +68,65 @@ fn status_digest(sim: &Sim) -> BTreeMap<String, Value> {
     res
 }
 
+fn status_value(st: &krill::server::ca::CaStatus) -> Value {
+    let parents = serde_json::to_value(st.parents())
+        .ok()
+        .and_then(|v| serde_json::from_value::<krill::api::ca::ParentStatuses>(v).ok())
+        .and_then(|p| serde_json::to_value(p).ok())
+        .unwrap_or(Value::Null);
+    let mut v = serde_json::json!({
+        "repo": serde_json::to_value(st.repo()).unwrap_or(Value::Null),
+        "parents": parents,
+        "children": serde_json::to_value(st.children()).unwrap_or(Value::Null),
+    });
+    sort_arrays(&mut v);
+    v
+}
+
+fn sort_arrays(v: &mut Value) {
+    match v {
+        Value::Object(m) => m.values_mut().for_each(sort_arrays),
+        Value::Array(a) => {
+            a.iter_mut().for_each(sort_arrays);
+            a.sort_by_key(|x| x.to_string());
+        }
+        _ => {}
+    }
+}
+
+/// The status the running instance reports (its cache) against the status a
+/// new status store reads from the same storage, for every CA: every status
+/// update is written through, so with nothing in flight the two are equal,
+/// times included.
+pub fn status_cache_vs_storage(w: &crate::world::World) -> Result<usize, Bad> {
+    let fresh = krill::server::ca::CaStatusStore::create(w.rt.storage(), krill::constants::STATUS_NS)
+        .map_err(|e| bad("status-cache-vs-storage", "load", format!("a new status store does not load: {e}")))?;
+    let mut n = 0;
+    for ca in w.ca_handles() {
+        if ca == TA {
+            continue;
+        }
+        let h = CaHandle::from_str(&ca).unwrap();
+        let Ok(live) = w.cam().get_ca_status(&h) else { continue };
+        let a = status_value(&live);
+        let b = status_value(&fresh.get_ca_status(&h));
+        n += 1;
+        if a != b {
+            let part = ["repo", "parents", "children"].into_iter().find(|k| a.get(*k) != b.get(*k)).unwrap_or("?");
+            return Err(bad(
+                "status-cache-vs-storage",
+                part,
+                format!(
+                    "{ca}: the {part} status reported by the running instance differs from what is stored: reported {} stored {}",
+                    a.get(part).map(|v| v.to_string()).unwrap_or_default().chars().take(500).collect::<String>(),
+                    b.get(part).map(|v| v.to_string()).unwrap_or_default().chars().take(500).collect::<String>()
+                ),
+            ));
+        }
+    }
+    Ok(n)
+}
+
 #[derive(Default)]
 struct Stats {
     probes: usize,
@@ -294,6 +353,8 @@ fn check_frozen(sim: &Sim, failed_before: &mut BTreeSet<String>, stats: &mut Sta
             }
         }
     }
+    // what is reported is what is stored
+    status_cache_vs_storage(w)?;
     // deleted CAs have no status
     for ca in sim.cas_ever.iter() {
         if !sim.model.cas.contains_key(ca) {
